@@ -10,6 +10,9 @@
    grp <ours csv> <peer csv|->                     -> <group>                    (tls13NegotiateGroup)
    gcs <server 0|1> <supp bits> <active bits> <disabled hex csv|-> <id hex>   -> 0|1   (sslGetCipherSpec, no key material)
    ccs <key rsa|ec> <supp bits> <active bits> <disabled hex csv|-> <suite hex csv>  -> <rc>:<ident hex>   (chooseCipherSuite)
+   dh <key rsa|ec> <supp bits> <active bits> <ops> <suite hex csv>      enable/disable HISTORY through the public API:
+        ops = csv of d:<id> e:<id> (matrixSslSetCipherSuiteEnabledStatus(ssl, id, PS_FALSE/PS_TRUE)) and D:<id> E:<id> (ssl == NULL, global)
+        -> rc=<0|L|F,...> slots=<hex csv of ssl->disabledCiphers[]> gcs=<0|1 per suite> ccs=<rc>:<ident>      (global state is reset afterwards)
    enc <enc16 hex>                                 -> <ver bits>                 (psVerFromEncoding)
    dv <c|s>                                        -> supp:prio                  (versions of a session created without options)
    dscsv <client 10|12> <server 10|12|both> <scsv 0|1>   one DTLS handshake in memory (datagram per flight):
@@ -18,6 +21,7 @@
    LIVE two-peer sessions (sess.h):
    new k=v ...   cv=<minor list in priority order> sv=<..> suite=<hex,...> (<=32) key=rsa|ec cems=-1|0|1 sems=-1|0|1
                  scsv=0|1 cgrp=<hex,...> sgrp=<hex,...> csig=<hex,...> ssig=<hex,...> sdis=<hex,...> nks=<n> seed=<n>
+                 sops=<d:id,e:id,...>  enable/disable history applied to the server session (after sdis)
    hs / step <c2s|s2c> [n] / st / q / inj <c|s> <hex>   as in h_sess
    gethead <c2s|s2c>          -> head:<hex of the first queued record>|none
    sethead <c2s|s2c> <hex>    replace the first queued record by these bytes (any length)
@@ -169,6 +173,51 @@ static void do_ccs(char **a, int n)
     printf("ccs=%d:%04x", rc < 0 ? -1 : 0, (rc < 0 || !s->cipher) ? 0 : s->cipher->ident);
     matrixSslDeleteSession(s);
 }
+/* apply an enable/disable history; prints the return codes; remembers globally touched idents for the reset */
+static uint16_t g_touched[256]; static int g_ntouched;
+static void apply_ops(ssl_t *s, const char *ops, int print)
+{
+    const char *p = ops; int first = 1;
+    if (!strcmp(ops, "-")) return;
+    while (*p) {
+        char k = *p; if (p[1] != ':') break;
+        char *e; unsigned id = (unsigned) strtoul(p + 2, &e, 16);
+        int glob = (k == 'D' || k == 'E'), en = (k == 'e' || k == 'E');
+        int32_t rc = matrixSslSetCipherSuiteEnabledStatus(glob ? NULL : s, (psCipher16_t) id, en ? PS_TRUE : PS_FALSE);
+        if (glob && g_ntouched < 256) g_touched[g_ntouched++] = (uint16_t) id;
+        if (print) { if (!first) printf(","); printf("%s", rc == PS_SUCCESS ? "0" : rc == PS_LIMIT_FAIL ? "L" : rc == PS_FAILURE ? "F" : "?"); }
+        first = 0; p = e; if (*p == ',') p++; else break;
+    }
+}
+static void reset_global(void)
+{
+    for (int i = 0; i < g_ntouched; i++) matrixSslSetCipherSuiteEnabledStatus(NULL, g_touched[i], PS_TRUE);
+    g_ntouched = 0;
+}
+static void do_dh(char **a, int n)
+{
+    if (n < 6) { printf("BADCASE"); return; }
+    int key = !strcmp(a[1], "ec");
+    if (!g_dk[key]) { matrixSslNewKeys(&g_dk[key], NULL); if (load_identity(g_dk[key], key, 1, 0) < 0) { printf("KEYFAIL"); return; } }
+    sslSessOpts_t so; memset(&so, 0, sizeof so);
+    psProtocolVersion_t v[3] = { v_tls_1_3, v_tls_1_2, v_tls_1_1 };
+    matrixSslSessOptsSetServerTlsVersions(&so, v, 3);
+    ssl_t *s = NULL;
+    if (matrixSslNewServerSession(&s, g_dk[key], NULL, &so) < 0) { printf("SESSFAIL"); return; }
+    printf("rc="); apply_ops(s, a[4], 1);
+    printf(" slots="); for (int j = 0; j < SSL_MAX_DISABLED_CIPHERS; j++) printf("%s%x", j ? "," : "", (unsigned) s->disabledCiphers[j]);
+    s->supportedVersions = (uint32_t) strtoul(a[2], NULL, 10);
+    s->activeVersion = (uint32_t) strtoul(a[3], NULL, 10);
+    s->peerSigAlg = 0xffff; s->hashSigAlg = 0xffff; s->ecInfo.ecFlags = 0xffffff; s->rec.majVer = 3;
+    uint32_t su[64]; int ns = csv_u32(a[5], su, 64, 16); unsigned char lst[128];
+    printf(" gcs=");
+    for (int i = 0; i < ns; i++) { lst[2*i] = (unsigned char) (su[i] >> 8); lst[2*i+1] = (unsigned char) su[i];
+                                   printf("%s%d", i ? "," : "", sslGetCipherSpec(s, (uint16_t) su[i]) ? 1 : 0); }
+    s->cipher = NULL;
+    int32 rc = chooseCipherSuite(s, lst, 2 * ns);
+    printf(" ccs=%d:%04x", rc < 0 ? -1 : 0, (rc < 0 || !s->cipher) ? 0 : s->cipher->ident);
+    matrixSslDeleteSession(s); reset_global();
+}
 static void do_dv(char **a, int n)
 {
     sslSessOpts_t so; memset(&so, 0, sizeof so); ssl_t *s = NULL; sslKeys_t *k = NULL;
@@ -238,7 +287,7 @@ typedef struct {
     psCipher16_t suites[32]; int nsuites;
     int key, cems, sems, scsv, nks;
     uint32_t cgrp[8], sgrp[8], csig[16], ssig[16], sdis[32]; int ncgrp, nsgrp, ncsig, nssig, nsdis;
-    uint64_t seed;
+    uint64_t seed; const char *sops;
 } ncfg_t;
 
 static int neg_new(ncfg_t *c)
@@ -265,6 +314,8 @@ static int neg_new(ncfg_t *c)
     rc = matrixSslNewServerSession(&g_s.ssl, g_s.keys, NULL, &so);
     if (rc < 0) return rc - 4000;
     for (int i = 0; i < c->nsdis; i++) matrixSslSetCipherSuiteEnabledStatus(g_s.ssl, (psCipher16_t) c->sdis[i], PS_FALSE);
+    reset_global();                                   /* global switches of the previous scenario */
+    if (c->sops) apply_ops(g_s.ssl, c->sops, 0);
     memset(&so, 0, sizeof so);
     for (int i = 0; i < c->ncver; i++) v[i] = minor2ver(c->cver[i]);
     if (c->ncver && (rc = matrixSslSessOptsSetClientTlsVersions(&so, v, c->ncver)) < 0) return rc - 5000;
@@ -298,6 +349,7 @@ static void do_new(char **a, int n)
         else if (!strcmp(a[i], "ssig")) c.nssig = csv_u32(v, c.ssig, 16, 16);
         else if (!strcmp(a[i], "sdis")) c.nsdis = csv_u32(v, c.sdis, 32, 16);
         else if (!strcmp(a[i], "seed")) c.seed = strtoull(v, NULL, 10);
+        else if (!strcmp(a[i], "sops")) c.sops = v;
     }
     int rc = neg_new(&c);
     if (rc == 0) { g_quiet = 1; flush_out(&g_c); g_quiet = 0; }
@@ -350,6 +402,7 @@ static void run_cmd(char **a, int n)
     else if (!strcmp(a[0], "gcs")) do_gcs(a, n);
     else if (!strcmp(a[0], "ccs")) do_ccs(a, n);
     else if (!strcmp(a[0], "dv")) do_dv(a, n);
+    else if (!strcmp(a[0], "dh")) do_dh(a, n);
     else if (!strcmp(a[0], "dscsv")) do_dscsv(a, n);
     else if (!strcmp(a[0], "enc") && n >= 2) printf("enc=%u", (unsigned) psVerFromEncoding((uint16_t) strtoul(a[1], NULL, 16)));
     else if (!strcmp(a[0], "new")) do_new(a + 1, n - 1);
